@@ -147,27 +147,135 @@ def run_cli_cases(cases, sgcli, sgcli_rel, workers=16):
         return list(ex.map(lambda c: cli_case(sgcli, sgcli_rel, c, with_snapshot=c.get("snapshot", False)), cases))
 
 
-HOSTILE_DIRS = ['we"ird', "a[b", "x{y", "q?z", "st*r", "sp ace", "uni_\u00e9", "tab\there", "br]ace}", "dollar$reset", "#hash", "'single'"]
+def hostile_dir_names():
+    """Sub-project directory names for `init --detect`: TOML-hostile, glob-hostile and invisible characters."""
+    names = ['we"ird', "a[b", "x{y", "q?z", "st*r", "sp ace", "uni_\u00e9", "tab\there", "br]ace}", "dollar$reset", "#hash", "'single'",
+             "web\\ui", "web\nui", "cr\rlf", 'tr"""iple', "lit" + "'" * 3 + "eral", 'a\\"b', "end\\", "my \"web\" app", "bob's-web", "web[v2]{a,b}*"]
+    for i in list(range(1, 0x20)) + [0x7F]:
+        names.append("c%02x%sx" % (i, chr(i)))
+    names += ["zw\u200bsp", "bom\ufeffx", "ls\u2028x", "ps\u2029x", "pua\ue000x", "nel\u0085x", "comb e\u0301 a\u0323\u0308", "\u0301lead",
+              "max\U0010ffffx", "nonchar\ufffex", "rtl\u202eover", "w\u00e9b\u30b5\u30a4\u30c8", "emoji\U0001f600dir", "shy\u00adx"]
+    return names
 
 
-def init_detect_cases(sgcli, sgcli_rel):
-    """`init --detect` in a monorepo whose sub-project directory has a hostile name: the generated template must pass the gate."""
-    def one(name):
+def glob_escape(s):
+    """globset::escape"""
+    return "".join("[" + c + "]" if c in "?*[]{}" else c for c in s)
+
+
+def expected_detect_pattern(name):
+    # detect_projects turns backslashes of the relative path into slashes; the name is then matched literally
+    return glob_escape(name.replace("\\", "/")) + "/**"
+
+
+def init_detect_cases(sgcli, sgcli_rel, quick, groups=None):
+    """`init --detect` in a monorepo whose sub-project directories have hostile names: the generated template must pass the
+    gate and its patterns, parsed back from the TOML by an independent parser, must be the directory names."""
+    names = hostile_dir_names()
+    if groups is None:
+        groups = [names[i:i + 8] for i in range(0, len(names), 8)]
+        if not quick:
+            groups += [[n] for n in names]
+
+    def one(group):
         out = {}
         for prof, exe in (("D", sgcli), ("R", sgcli_rel)):
             with Sandbox(prefix="sgv-gate-i-") as sb:
-                sb.write(os.path.join(name, "Cargo.toml"), "[package]\nname = \"x\"\n")
-                sb.write(os.path.join(name, "src", "a.rs"), SRC)
+                for name in group:
+                    sb.write(os.path.join(name, "Cargo.toml"), "[package]\nname = \"x\"\n")
+                    sb.write(os.path.join(name, "src", "a.rs"), SRC)
+                if len(group) == 1:
+                    sb.write("package.json", "{ \"name\": \"root\" }\n")
                 env = {"RAYON_NUM_THREADS": "2"}
                 r0 = sb.run(exe, ["--color", "never", "init", "--detect"], env=env, timeout=30)
                 p = os.path.join(sb.proj, ".sloc-guard.toml")
-                text = open(p, encoding="utf-8", errors="replace").read() if os.path.exists(p) else ""
+                raw = open(p, "rb").read() if os.path.exists(p) else b""
                 r1 = sb.run(exe, ["--color", "never", "config", "validate", "-c", ".sloc-guard.toml"], env=env, timeout=30)
                 r2 = sb.run(exe, ["--color", "never", "check", "--no-sloc-cache"], env=env, timeout=30)
-                out[prof] = {"init": r0[0], "validate": r1[0], "check": r2[0], "toml": text, "diag": (r1[2] + r2[2])[-400:]}
+                pats, perr = None, None
+                try:
+                    doc = tomllib.loads(raw.decode("utf-8"))
+                    pats = sorted(r.get("pattern") for r in doc.get("content", {}).get("rules", []))
+                except Exception as e:  # the template is not TOML for an independent parser either
+                    perr = str(e)[:200]
+                out[prof] = {"init": r0[0], "validate": r1[0], "check": r2[0], "toml": raw.decode("utf-8", "replace"), "diag": (r1[2] + r2[2])[-400:],
+                             "patterns": pats, "parse_error": perr}
         return out
     with cf.ThreadPoolExecutor(max_workers=12) as ex:
-        return list(zip(HOSTILE_DIRS, ex.map(one, HOSTILE_DIRS)))
+        return list(zip(groups, ex.map(one, groups)))
+
+
+# --------------------------------------------------------------------------- inheritance leg (extends / $reset x version)
+
+INH_VERSIONS = [None, "2", "1", "3", "", "2.0", Raw("2"), Raw("2.0"), Raw("true"), Raw('["2"]')]
+INH_BODY = "\n[content]\nmax_lines = 400\nwarn_threshold = 0.5\n"
+
+
+def vline(v):
+    return "" if v is None else "version = %s\n" % tval(v)
+
+
+def inherit_cases(rng, presets, quick):
+    """Configurations loaded through `extends` (preset / local base file) or containing a `$reset` marker, crossed with
+    every version class in the child, in the base, or in both. `flat` is the single-file document with the same
+    effective version (child wins over base); the gate verdict must be the one of `flat`."""
+    out = []
+    pnames = [n for n, _ in presets]
+    for i, cv in enumerate(INH_VERSIONS):
+        for pn in (pnames if not quick else [pnames[i % len(pnames)]]):
+            ev = cv if cv is not None else "2"
+            out.append({"shape": "preset", "files": {".sloc-guard.toml": vline(cv) + 'extends = "preset:%s"\n' % pn + INH_BODY},
+                        "flat": vline(ev) + INH_BODY, "muts": ["extends preset:" + pn, "child version %r" % (cv,)]})
+        out.append({"shape": "reset", "files": {".sloc-guard.toml": vline(cv) + '\n[scanner]\nexclude = ["$reset", "vendor/**"]\n' + INH_BODY},
+                    "flat": vline(cv) + '\n[scanner]\nexclude = ["vendor/**"]\n' + INH_BODY, "muts": ["$reset marker, no extends", "version %r" % (cv,)]})
+    pairs = [(c, b) for c in INH_VERSIONS for b in INH_VERSIONS]
+    if quick:
+        must = [(None, "1"), ("3", "2"), ("1", "1"), ("2", "1"), (None, Raw("2")), (None, None), ("2", "2"), (None, ""), (Raw("2"), "2")]
+        rest = [p for p in pairs if p not in must]
+        rng.shuffle(rest)
+        pairs = must + rest[:7]
+    for k, (cv, bv) in enumerate(pairs):
+        ev = cv if cv is not None else bv
+        child = vline(cv) + 'extends = "base.toml"\n'
+        flat_extra = ""
+        shape = "local"
+        if k % 3 == 2:
+            child += '\n[scanner]\nexclude = ["$reset", "gen/**"]\n'
+            flat_extra = '\n[scanner]\nexclude = ["gen/**"]\n'
+            shape = "local+reset"
+        out.append({"shape": shape, "files": {".sloc-guard.toml": child, "base.toml": vline(bv) + '\n[scanner]\nexclude = ["old/**"]\n' + INH_BODY},
+                    "flat": vline(ev) + flat_extra + INH_BODY, "muts": ["extends base.toml", "child version %r" % (cv,), "base version %r" % (bv,)]})
+    # a chain of three: the unsupported version sits in the grandparent only
+    out.append({"shape": "chain", "files": {".sloc-guard.toml": 'extends = "mid.toml"\n', "mid.toml": 'extends = "base.toml"\n[content]\nmax_lines = 300\n',
+                                            "base.toml": 'version = "1"\n' + INH_BODY},
+                "flat": 'version = "1"\n' + INH_BODY, "muts": ["extends mid.toml -> base.toml", "grandparent version '1'"]})
+    for c in out:
+        c["tag"] = "inherit-" + c["shape"]
+        c["toml"] = c["flat"]
+        c["argv"] = []
+    return out
+
+
+def run_inherit_cases(cases, sgcli, sgcli_rel):
+    def one(c):
+        res = {}
+        with Sandbox(prefix="sgv-gate-x-") as sb:
+            for name, text in c["files"].items():
+                sb.write(name, text)
+            sb.write("src/a.rs", SRC)
+            env = {"RAYON_NUM_THREADS": "2"}
+            cmds = {"check": ["--color", "never", "check", "--no-sloc-cache"],
+                    "validate": ["--color", "never", "config", "validate", "-c", ".sloc-guard.toml"],
+                    "show": ["--color", "never", "config", "show"],
+                    "stats": ["--color", "never", "stats", "summary", "--no-sloc-cache"]}
+            for prof, exe in (("D", sgcli), ("R", sgcli_rel)):
+                res[prof] = {}
+                for name, a in cmds.items():
+                    rc, so, se = sb.run(exe, a, env=env, timeout=30)
+                    res[prof][name] = (rc, (se + "\n" + so)[-1200:])
+        return res
+    with cf.ThreadPoolExecutor(max_workers=16) as ex:
+        return list(ex.map(one, cases))
 
 
 def verdict_of_exit(cmd, rc):
@@ -250,7 +358,7 @@ def run(ctx):
         if ctx.known(klass, what):
             return
         viol.append({"kind": "property-oracle", "class": klass, "what": what, "toml": case["toml"], "argv": case.get("argv", []),
-                     "muts": case.get("muts"), "detail": extra})
+                     "muts": case.get("muts"), "detail": extra, "dirs": case.get("dirs"), "files": case.get("files")})
 
     # ---- behaviour probes vs the switches the model is instantiated with
     for k in ("rule_wt", "expires", "count_exclude"):
@@ -308,7 +416,7 @@ def run(ctx):
                     known_or_violation(k, "accepted outside the documented domain (library level)", c)
 
     # ---- CLI subset: tables, corpus, flag classes, and a stratified sample of the generated documents
-    cli_budget = 130 if quick else 4000
+    cli_budget = 85 if quick else 4000
     by_kind = {}
     for c in gen:
         m = c["m"]
@@ -414,17 +522,71 @@ def run(ctx):
             viol.append({"kind": "property-oracle", "class": None, "what": "built-in %s does not deserialise into Config" % n, "toml": dict(tables)[n], "argv": []})
 
     # ---- init --detect templates for hostile sub-project directory names
-    idc = init_detect_cases(sgcli, sgcli_rel)
-    for name, res in idc:
+    idc = init_detect_cases(sgcli, sgcli_rel, quick)
+    for group, res in idc:
+        want = sorted(expected_detect_pattern(n) for n in group)
         for prof in ("D", "R"):
             r = res[prof]
             spawns += 3
+            bad = None
             if r["init"] != 0 or r["validate"] != 0 or r["check"] not in (0, 1):
-                known_or_violation("K17_init_detect_names", "init --detect template for a sub-project directory named %r does not pass the gate "
-                                   "(init %d, config validate %d, check %d)" % (name, r["init"], r["validate"], r["check"]),
-                                   {"toml": r["toml"], "argv": [], "muts": ["init --detect", name]}, r["diag"])
+                bad = "does not pass the gate (init %d, config validate %d, check %d)" % (r["init"], r["validate"], r["check"])
+            elif r["patterns"] is None:
+                bad = "is not TOML for an independent parser (%s)" % r["parse_error"]
+            elif r["patterns"] != want:
+                bad = "has patterns %r, the directory names give %r" % (r["patterns"], want)
+            if bad:
+                culprit, rr = group, r
+                if len(group) > 1:   # shrink to one directory name
+                    for g1, res1 in init_detect_cases(sgcli, sgcli_rel, True, groups=[[n] for n in group]):
+                        spawns += 6
+                        r1 = res1[prof]
+                        if r1["init"] != 0 or r1["validate"] != 0 or r1["check"] not in (0, 1) or r1["patterns"] != [expected_detect_pattern(g1[0])]:
+                            culprit, rr = g1, r1
+                            break
+                known_or_violation("K17_init_detect_names", "init --detect template for sub-project directories %r %s" % (group, bad),
+                                   {"toml": rr["toml"], "argv": [], "dirs": culprit, "muts": ["init --detect"] + [repr(g) for g in culprit]},
+                                   {"dirs": culprit, "diag": rr["diag"], "patterns": rr["patterns"], "parse_error": rr["parse_error"]})
                 break
-    ctx.cov["init_detect_hostile_names"] = len(idc)
+    ctx.cov["init_detect_hostile_names"] = len(hostile_dir_names())
+    ctx.cov["init_detect_sandboxes"] = len(idc)
+
+    # ---- inheritance leg: extends (preset, local base, chain) and $reset markers crossed with every version class
+    inh = inherit_cases(ctx.rng, presets, quick)
+    evaluate(bins, model, behav, inh)          # the model (and the library pipeline) see the flattened single-file document
+    inh_res = run_inherit_cases(inh, sgcli, sgcli_rel)
+    for c, res in zip(inh, inh_res):
+        hist[c["tag"]] = hist.get(c["tag"], 0) + 1
+        h, m = c["h"], c["m"]
+        for prof in ("D", "R"):
+            for cmd, (rc, text) in res[prof].items():
+                spawns += 1
+                if rc == -9 or "panicked at" in text or rc not in (0, 1, 2):
+                    viol.append({"kind": "property-oracle", "class": None, "what": "%s build, %s on an inherited configuration: exit %d / panic / timeout" % (prof, cmd, rc),
+                                 "files": c["files"], "toml": c["flat"], "argv": [], "output": text[-500:]})
+                    continue
+                mo = m[prof][{"check": "check", "validate": "validate", "show": "show", "stats": "show"}[cmd]]
+                iv = verdict_of_exit(cmd, rc)
+                want = {"A": "A", "R": "R", "C": "X101"}[split_out(mo)[0]]
+                if iv != want:
+                    # the flattened document is refused (unsupported / non-string version) but the same settings loaded through
+                    # extends / $reset are accepted: the property itself is violated, not just the correspondence
+                    if want == "R" and iv == "A":
+                        viol.append({"kind": "property-oracle", "class": None,
+                                     "what": "%s exits %d on a configuration whose effective version is not \"2\" when it is loaded through %s (the same settings in one file: %s)"
+                                             % (cmd, rc, c["shape"], mo), "files": c["files"], "toml": c["flat"], "argv": [], "muts": c["muts"], "profile": prof})
+                    else:
+                        mism.append({"level": "cli-inherit", "profile": prof, "cmd": cmd, "impl_exit": rc, "model": mo, "files": c["files"], "toml": c["flat"],
+                                     "argv": [], "output": text[-400:]})
+                else:
+                    cli_ok += 1
+                    if iv == "R" and mo.startswith("R:Version") and "version" not in text.lower():
+                        viol.append({"kind": "property-oracle", "class": None, "what": "%s: exit 2 without a diagnostic naming the version" % cmd,
+                                     "files": c["files"], "toml": c["flat"], "argv": [], "output": text[-500:]})
+                    elif iv == "R" and not text.strip():
+                        viol.append({"kind": "property-oracle", "class": None, "what": "%s: exit 2 without any diagnostic" % cmd, "files": c["files"],
+                                     "toml": c["flat"], "argv": []})
+    ctx.cov["inherited_documents"] = len(inh)
 
     # ---- duration flags of stats (value classes) through the CLI, both profiles, against parse_duration of the model
     sfc = stats_flag_cases()
@@ -457,7 +619,7 @@ def run(ctx):
                     cli_ok += 1
 
     # ---- evidence
-    ctx.cov["evaluations"] = len(cases) + len(age_cases) + len(ext_cases) + len(sfc) + len(idc)
+    ctx.cov["evaluations"] = len(cases) + len(age_cases) + len(ext_cases) + len(sfc) + len(idc) + len(inh)
     ctx.cov["distinct_nontrivial"] = len(nontrivial)
     ctx.cov["traces_validated_against_impl"] = len(cases) - len([x for x in mism if x["level"] == "library"])
     ctx.cov["cli_process_spawns"] = spawns
@@ -483,7 +645,7 @@ def run(ctx):
         "TOML syntax and typing are not modelled: the real toml crate decides whether a document is a Config (oracle) and the harness dumps the typed value",
         "glob / regex validity are oracle bits computed by globset / regex through the harness",
         "absence of panics and time-outs of the Rust code is observed (both build profiles), not proved"]
-    ctx.assumptions = ["documents without extends / $reset markers (inheritance is C16); the default init template is taken from `sgcli init`, the detect templates from generate_detected_config",
+    ctx.assumptions = ["field mutation is done on single files; the extends / $reset loading paths are crossed with the version classes only (merge semantics is C16); remote extends is not exercised offline; the default init template is taken from `sgcli init`, the detect templates from generate_detected_config",
                        "`stats --since <invalid>` warns and falls back (exit 0) by design; only crash-freedom and the parse verdict are checked there"]
     xcheck(ctx, cases, behav, 40 if quick else 300)
 
@@ -568,6 +730,24 @@ def replay(ctx, path):
     bins, sgcli_rel, model, presets, templates, probes, behav, items = prepare(ctx)
     if "toml" not in j and "first_mismatch" in j:
         j = dict(j["first_mismatch"])
+    if j.get("dirs"):
+        for g, res in init_detect_cases(bins["sgcli"], sgcli_rel, True, groups=[j["dirs"]]):
+            for prof in ("D", "R"):
+                r = res[prof]
+                print("init --detect %s dirs=%r: init=%d validate=%d check=%d patterns=%r expected=%r %s" %
+                      (prof, g, r["init"], r["validate"], r["check"], r["patterns"], sorted(expected_detect_pattern(n) for n in g), r["parse_error"] or ""))
+                print(r["diag"].strip()[:300])
+        return 0
+    if j.get("files"):
+        c = {"files": j["files"], "flat": j.get("toml", ""), "toml": j.get("toml", ""), "argv": [], "tag": "replay"}
+        evaluate(bins, model, behav, [c])
+        print("files  :", json.dumps(j["files"], indent=1))
+        print("model on the flattened document:", c["m"])
+        r = run_inherit_cases([c], bins["sgcli"], sgcli_rel)[0]
+        for prof in ("D", "R"):
+            for cmd, (rc, text) in r[prof].items():
+                print("cli %s %-8s exit=%d  %s" % (prof, cmd, rc, text.strip().splitlines()[0] if text.strip() else ""))
+        return 0
     c = {"toml": j.get("toml", ""), "argv": j.get("argv", []), "tag": "replay"}
     evaluate(bins, model, behav, [c])
     print("document:\n" + c["toml"])
